@@ -134,6 +134,16 @@ let value_heap_of = function
     (v, List.rev !heap)
   | _ -> failwith "value"
 let cmp_char = function Lt -> 'L' | Eq -> 'E' | Gt -> 'G'
+(* union values (C20 cross-check): the object representation, a list of bytes  (b0 b1 ...)  in decimal *)
+let rec nat_of_int (n : int) : nat = if n <= 0 then O else S (nat_of_int (n - 1))
+let rec int_of_nat = function O -> 0 | S n -> 1 + int_of_nat n
+let bytes_of = function
+  | L bs -> List.map (function (A _ | S _) as z ->
+      let n = int_of_string (str z) in
+      if n < 0 || n > 255 then failwith "byte" else nat_of_int n | _ -> failwith "byte") bs
+  | _ -> failwith "bytes"
+(* `{:?}` of a byte slice, as the harness prints the clone's bytes *)
+let show_bytes (l : nat list) : string = "[" ^ String.concat ", " (List.map (fun n -> string_of_int (int_of_nat n)) l) ^ "]"
 
 let features (s : string) : trait list =
   if s = "ALL" then all_traits
@@ -151,7 +161,9 @@ let () =
            let d = dinput (parse_sexp sx) in
            let is_ref_op = (op = "deref" || op = "deref_mut" || op = "deref_mut_write") in
            let vhs = (match parse_sexp vsx with L l when is_ref_op -> List.map value_heap_of l | _ -> []) in
-           let vs = (match parse_sexp vsx with L l -> if is_ref_op then [] else List.map value_of l | _ -> failwith "values") in
+           let is_union_op = (String.length op >= 6 && String.sub op 0 6 = "union_") in
+           let bs = (match parse_sexp vsx with L l when is_union_op -> List.map bytes_of l | _ -> []) in
+           let vs = (match parse_sexp vsx with L l -> if is_ref_op || is_union_op then [] else List.map value_of l | _ -> failwith "values") in
            let b = Buffer.create 256 in
            let each f l = List.iter (fun a -> Buffer.add_string b (match f a with Some t -> t | None -> "?"); Buffer.add_char b '\001') l in
            (match op with
@@ -163,6 +175,14 @@ let () =
               (* the target type's tokens come as a sixth field *)
               let target = (match extra with [tsx] -> toks (parse_sexp tsx) | _ -> failwith "into: target") in
               each (fun v -> model_into d target v) vs
+            | "union_eq" -> List.iter (fun a -> List.iter (fun x ->
+                Buffer.add_char b (match model_union_eq d a x with Some true -> '1' | Some false -> '0' | None -> '?')) bs) bs
+            | "union_hash" -> List.iter (fun a ->
+                Buffer.add_string b (match model_union_hash d a with Some l -> String.concat "," l | None -> "?"); Buffer.add_char b ';') bs
+            | "union_debug" | "union_debug_alt" -> List.iter (fun a ->
+                Buffer.add_string b (match model_union_debug (op = "union_debug_alt") d a with Some t -> String.escaped t | None -> "?"); Buffer.add_char b '\001') bs
+            | "union_clone" -> List.iter (fun a ->
+                Buffer.add_string b (match model_union_clone d a with Some l -> show_bytes l | None -> "?"); Buffer.add_char b '\001') bs
             | "eq" -> List.iter (fun a -> List.iter (fun x ->
                 Buffer.add_char b (match model_eq d a x with Some true -> '1' | Some false -> '0' | None -> '?')) vs) vs
             | "cmp" -> List.iter (fun a -> List.iter (fun x ->
